@@ -1069,6 +1069,13 @@ static int write_text(void *context, UChar *text, int32_t length, int fold, int 
                     next_tok += 1;
                     continue;
                 }
+            } else if ((*next_tok == 0) && (tok != text)) {
+                /* the value ends with a newline: its last line is empty */
+                if (u_fputc(UCHAR_NL, CONTEXT_UFILE(context)) != UCHAR_NL) {
+                    return CIF_ERROR;
+                } else {
+                    break;
+                }
             }
 
             /* find the end of this line, and determine whether it needs to be protected */
